@@ -128,8 +128,11 @@ def explore(run):
     thorough = run.tier == "thorough"
     with minibase.Scratch() as sc:
         witnesses(run, sc)
-        for i in range(600 if thorough else 26):
-            g, files0 = W.gen_closed(rng, hostile=rng.random() < 0.5, n_ns=rng.choice([1, 2, 2, 3, 3]))
+        for i in range(600 if thorough else 40):
+            if rng.random() < 0.4:      # 3-5 namespaces, sparsely linked: a namespace that uses a later one but not an earlier one
+                g, files0 = W.gen_closed(rng, hostile=rng.random() < 0.5, layered=True, n_nodes=rng.randint(2, 5))
+            else:
+                g, files0 = W.gen_closed(rng, hostile=rng.random() < 0.5, n_ns=rng.choice([1, 2, 2, 3, 3]))
             full_models(g)
             files = D.serialise(rng, g, extras=False)
             cross = sum(1 for (a, b, c) in g["refs"] if a[0] != b[0] and UA not in (a[0], b[0]))
